@@ -86,13 +86,13 @@ static SNDFILE *make_handle (int state, int fmt)
 	vio_reset (&mem) ;
 	SNDFILE *f = sf_open_virtual (&vio_mem_io, SFM_WRITE, &info, &mem) ;
 	if (! f) return NULL ;
-	sf_set_string (f, SF_STR_TITLE, "title") ;
+	if (state != 3) sf_set_string (f, SF_STR_TITLE, "title") ;		/* (a WAV with a LIST chunk cannot be opened for read/write: the rdwr state goes without the string) */
 	SF_CUES cues ; memset (&cues, 0, sizeof (cues)) ; cues.cue_count = 3 ; for (int k = 0 ; k < 3 ; k++) { cues.cue_points [k].indx = k ; cues.cue_points [k].sample_offset = 10 * k ; }
-	sf_command (f, SFC_SET_CUE, &cues, sizeof (cues)) ;
+	if (state != 3) sf_command (f, SFC_SET_CUE, &cues, sizeof (cues)) ;		/* (nor with cue / smpl chunks before the data) */
 	SF_BROADCAST_INFO bi ; memset (&bi, 0, sizeof (bi)) ; snprintf (bi.description, sizeof (bi.description), "desc") ; snprintf (bi.coding_history, sizeof (bi.coding_history), "A=PCM\r\n") ; bi.coding_history_size = (uint32_t) strlen (bi.coding_history) ;
 	sf_command (f, SFC_SET_BROADCAST_INFO, &bi, sizeof (bi)) ;
 	SF_INSTRUMENT ins ; memset (&ins, 0, sizeof (ins)) ; ins.basenote = 60 ; ins.loop_count = 1 ; ins.loops [0].mode = SF_LOOP_FORWARD ; ins.loops [0].start = 1 ; ins.loops [0].end = 20 ;
-	sf_command (f, SFC_SET_INSTRUMENT, &ins, sizeof (ins)) ;
+	if (state != 3) sf_command (f, SFC_SET_INSTRUMENT, &ins, sizeof (ins)) ;
 	if (state == 2) return f ;
 	float buf [200] ; for (int k = 0 ; k < 200 ; k++) buf [k] = (float) (k % 17) / 20.0f - 0.3f ;
 	sf_writef_float (f, buf, 100) ;
